@@ -57,7 +57,7 @@ NoFault == fault = "none"
 OffsetInv == pc \in {"para", "lines"} /\ pk <= Len(prs) => offset = BOff(text)[prs[pk][1]]
 IndexInv == \A x \in 1..Len(indices) : \E i \in 1..Len(text) : BOff(text)[i] = indices[x] /\ text[i] = SP
 IndicesIncrease == \A x \in 1..(Len(indices) - 1) : indices[x] < indices[x + 1]
-Ev == [ev |-> "c17", text |-> text, width |-> width, res |-> res,
+Ev == [ev |-> "c17", text |-> text, width |-> width, res |-> res, hk |-> [x \in 1..Len(indices) |-> <<0, indices[x] + 1>>],
        wl |-> LineStrings(WrapFF(text, InplaceOpts(width), [j \in 1..Len(SplitCharRanges(text, LF)) |-> {}])),
        status |-> (IF fault = "none" THEN "ok" ELSE "panic")]
 AllOk(cs) == \A x \in 1..Len(cs) : cs[x].ok \/ (PrintT(<<"FAILED", cs[x].p, cs[x].c, cs[x].r>>) /\ FALSE)
